@@ -6,15 +6,16 @@ ASSUMPTIONS = []
 EXPLANATION = "bounded symbolic execution of hash/eq/assign/swap on symbolic values; hash_data differential against a reference MurmurHash64A"
 US = ["Type_Scan.0:24", "Type_Scan.1:24", "strcmp.0:24"]
 Q = ("quick", "thorough")
-QUICKSET = [(0, 0), (3, 1), (7, 2), (8, 0), (9, 3), (16, 5)]
-ALLSET = QUICKSET + [(n, o) for n in range(0, 25) for o in (0, 1, 7) if (n, o) not in QUICKSET] + [(32, 3), (40, 0)]
+QUICKSET = [(n, o) for n in range(0, 25) for o in (0, 1, 7)] + [(32, 3), (40, 0)]
+ALLSET = QUICKSET + [(n, o) for n in range(25, 65, 3) for o in (0, 3, 5)]
 OBLIGATIONS = [
     Ob("value_hash.intfloat", "C10/value_hash.c", desc="Int/Float: eq=>hash equal, alloc-class independence, assign, swap; full width", unwindset=US, checks=["bounds", "pointer"], tiers=Q, timeout=600),
-    Ob("string_hash.len4", "C10/string_hash.c", defs=["SLEN=4"], desc="String hash/copy/assign/swap, content <= 4 bytes", unwindset=US + ["strlen.0:8", "strcpy.0:8", "harness.0:8", "harness.1:8"], checks=["bounds", "pointer"], tiers=Q, timeout=900, backend="z3"),
-    Ob("string_hash.len8", "C10/string_hash.c", defs=["SLEN=8"], desc="String hash/copy/assign/swap, content <= 8 bytes", unwindset=US + ["strlen.0:12", "strcpy.0:12", "harness.0:12", "harness.1:12"], unwind=12, checks=["bounds", "pointer"], tiers=("thorough",), timeout=3600, backend="z3"),
+    Ob("string_hash.stack.len4", "C10/string_hash.c", defs=["SLEN=4", "LIGHT"], desc="String hash = hash_data over exactly len characters; same characters at another address are eq and hash the same; Type hash by name", unwindset=US + ["strlen.0:8", "strcpy.0:8", "harness.0:8", "harness.1:8"], checks=["bounds", "pointer"], tiers=Q, timeout=900, backend="z3"),
+    Ob("string_hash.len4", "C10/string_hash.c", defs=["SLEN=4"], desc="String hash/copy/assign/swap, content <= 4 bytes", unwindset=US + ["strlen.0:8", "strcpy.0:8", "harness.0:8", "harness.1:8"], checks=["bounds", "pointer"], tiers=("probe",), timeout=900, backend="z3"),
+    Ob("string_hash.len8", "C10/string_hash.c", defs=["SLEN=8"], desc="String hash/copy/assign/swap, content <= 8 bytes", unwindset=US + ["strlen.0:12", "strcpy.0:12", "harness.0:12", "harness.1:12"], unwind=12, checks=["bounds", "pointer"], tiers=("probe",), timeout=3600, backend="z3"),
 ] + [
     Ob("hash_data.len%d.off%d" % (n, o), "C10/hash_data.c", defs=["LEN=%d" % n, "OFF=%d" % o], desc="hash_data vs reference Murmur, %d bytes at alignment %d" % (n, o),
-       unwind=max(n, 9) + 2, checks=["bounds", "pointer"], tiers=(Q if (n, o) in QUICKSET else ("thorough",)), timeout=1800, link=["Hash.c"], backend="z3")
+       unwind=max(n, 9) + 3, checks=["bounds", "pointer"], tiers=(Q if (n, o) in QUICKSET else ("thorough",)), timeout=1800, link=["Hash.c"], backend="z3")
     for (n, o) in ALLSET
 ]
 LEVEL_TEXT = ("Bounded model checking: Int/Float hash and eq at full 64-bit / IEEE width, String content up to the stated length, hash_data differentially "
